@@ -11,10 +11,30 @@ import RecipeGrid.Lemmas.Nested
       stmt          <- (output_list hsp? r":?=" hsp?)? ltr_shorthand eol
 
     as an abstract syntax (`XExpr`, `XStmt`), a *spelling* (`Spelling`: the white space at every
-    place of the tree where the grammar allows some, trailing commas, ends of lines), a printer
-    (`printX`, `printStmt`, `printBlock`) and the expected AST with the offsets the parser records
-    (`astOf`, `astOfStmt`, `astOfBlock`); none of these mentions the parser.  The theorems:
-    `expr_roundtrip`, `stmt_roundtrip`, `recipe_roundtrip`, `two_spellings_same_ast_mod_offsets`. -/
+    place of the tree where the grammar allows some, trailing commas, ends of lines - chosen
+    independently at every node, which is addressed by its `Path`), a printer (`printX`, `printStmt`,
+    `printBlock`) and the expected AST with the offsets the parser records (`astOf`, `astOfStmt`,
+    `astOfBlock`); none of these mentions the parser.
+
+    The shorthand `expr, action, …` is not an expression of the grammar by itself (`f(a, b)` has two
+    arguments); it occurs in parentheses (`XExpr.paren e actions`) and in statements (`XStmt.actions`).
+
+    Main theorems (no fuel or position assumptions beyond the stated ones):
+    * `expr_roundtrip` - `expr` on `pre ++ printX sp [] x ++ rest` returns `astOf sp [] pre.length x`
+      and stops after the printed text, for every fuel `≥ x.depth`;
+      `step_fails_on_leaf`, `expr_on_leaf`, `action_stops_before_paren` spell out the ordered choice;
+    * `depth_le_length` - the nesting depth is at most the length of the text (+1), so the fuel that
+      `stmt` derives from the remaining text suffices;
+    * `stmt_roundtrip`, `recipe_roundtrip` - statements with outputs, whole blocks through `parse`;
+    * `eraseExpr_astOf`, `parse_erase_eq_bare`, `two_spellings_same_ast_mod_offsets` - modulo offsets
+      the AST is a function of the abstract syntax alone;
+    * `xok_of_plain`, `blockOk_of_plain`, `plain_recipe_roundtrip`, `plain_two_spellings` - for names
+      that are single naked or quoted strings all side conditions hold in every permitted spelling.
+
+    Side conditions (`XOk`, `XStmt.Ok`, `BlockOk`): those of `Props/C06.lean` for every reference and
+    every string where it stands (`RefLit.Ok`, `StringLit.Ok`), plus `RefLit.NotStep` (a reference
+    must not be followed by `blanks (` - otherwise it *is* a step, see the example `2 eggs(a)`) and
+    `XStmt.NoTargetCond`. -/
 namespace RG.C06
 open RG.Parser
 
@@ -804,25 +824,33 @@ theorem two_spellings_same_expr_mod_offsets (sp1 sp2 : Spelling) (p1 p2 : Path) 
     eraseExpr (astOf sp1 p1 off1 x) = eraseExpr (astOf sp2 p2 off2 x) := by
   rw [eraseExpr_astOf, eraseExpr_astOf]
 
-/-! ## The side conditions hold for plain words, in every spelling
+/-! ## The side conditions hold for plain names, in every spelling
 
     The conditions `XOk` / `XStmt.Ok` / `BlockOk` speak about the text that follows every reference
-    and every action.  For recipes whose names are *plain words* - naked strings; for ingredient
-    names moreover not starting like an amount - they hold for **every** permitted spelling, so the
-    round trip theorems apply without further hypotheses. -/
+    and every action.  For recipes whose names are *plain* - one naked or quoted string each; a naked
+    ingredient name moreover not starting like an amount - they hold for **every** permitted
+    spelling, so the round trip theorems apply without further hypotheses.  (Every string at all can
+    be written between quotes, see `squoted_roundtrip`.) -/
 
-/-- a single naked string -/
-def IsWord (s : StringLit) : Prop := ∃ txt, s = ⟨.naked txt, []⟩ ∧ IsNaked txt
+/-- a naked string, or a string between single or double quotes -/
+def IsNameAtom : StrAtom → Prop
+  | .naked txt => IsNaked txt
+  | .squoted items => ∀ it ∈ items, it.Ok '\''
+  | .dquoted items => ∀ it ∈ items, it.Ok '"'
+  | .braced _ => False
+
+/-- a name made of one such atom -/
+def IsWord (s : StringLit) : Prop := ∃ a, s = ⟨a, []⟩ ∧ IsNameAtom a
 
 /-- a name that is not the beginning of a remainder word (`rest`, `remaining`, `left over`, …),
     whatever follows it -/
 def NoRemainderStart (txt : Str) : Prop := ∀ rest, remainderWordAt (txt ++ rest) = false
 
-/-- an ingredient name written as a reference without amount: a naked string that does not start
-    with a digit nor like a remainder word -/
+/-- an ingredient name written as a reference without amount: a quoted string, or a naked string
+    that does not start with a digit nor like a remainder word -/
 def IsPlainRef (r : RefLit) : Prop :=
-  ∃ txt, r = ⟨none, ⟨.naked txt, []⟩⟩ ∧ IsNaked txt ∧ (∀ c, txt.head? = some c → isDigit c = false)
-    ∧ NoRemainderStart txt
+  ∃ a, r = ⟨none, ⟨a, []⟩⟩ ∧ IsNameAtom a
+    ∧ ∀ txt, a = .naked txt → (∀ c, txt.head? = some c → isDigit c = false) ∧ NoRemainderStart txt
 
 /-- sufficient: the first letter is none of `r`, `R`, `l`, `L` -/
 theorem noRemainderStart_of_head {txt : Str} (hne : txt ≠ [])
@@ -946,29 +974,88 @@ theorem wordFollow_printClose (trail : Option Str) (ws : Str) (htrail : ∀ w, t
     have := wordFollow_spaces (htrail w rfl) (c := ',') (ws ++ ')' :: rest) (Or.inl rfl)
     simpa [printClose, List.append_assoc] using this
 
+theorem closedFollow_of_nakedFollow {rest : Str} (h : NakedFollow false rest) : ClosedFollow false rest := by
+  obtain ⟨ws, r, e, hws, hr⟩ := h
+  refine ⟨ws.takeWhile isHsp, ws.dropWhile isHsp ++ r, ?_, fun c hc => mem_takeWhile_imp hc, ?_⟩
+  · rw [e, ← List.append_assoc, List.takeWhile_append_dropWhile]
+  · intro c hc
+    cases hd : ws.dropWhile isHsp with
+    | nil =>
+      rw [hd] at hc
+      simp only [List.nil_append] at hc
+      refine ⟨?_, Or.inr (hr c hc)⟩
+      rcases hr c hc with h | h | h
+      · simp only [List.mem_cons, List.not_mem_nil, or_false] at h
+        rcases h with rfl | rfl | rfl | rfl | rfl | rfl | rfl <;> decide
+      · exact isHsp_of_isNewline h
+      · exact absurd h.1 (by decide)
+    | cons x xs =>
+      rw [hd] at hc
+      simp only [List.cons_append, List.head?_cons, Option.some.injEq] at hc
+      subst hc
+      have h1 : isHsp x = false := by
+        have := List.head?_dropWhile_not isHsp ws
+        rw [hd] at this
+        simpa using this
+      have : x ∈ ws := (List.dropWhile_sublist isHsp).subset (by rw [hd]; simp)
+      exact ⟨h1, Or.inl (hws x this).1⟩
+
 theorem word_ok {s : StringLit} (h : IsWord s) {rest : Str} (hf : NakedFollow false rest) : s.Ok false rest := by
-  obtain ⟨txt, rfl, hn⟩ := h
-  obtain ⟨ws, r, e, hws, hr⟩ := hf
-  exact nakedLit_ok txt hn rest ws r e hws hr
+  obtain ⟨a, rfl, ha⟩ := h
+  cases a with
+  | naked txt =>
+    obtain ⟨ws, r, e, hws, hr⟩ := hf
+    exact nakedLit_ok txt ha rest ws r e hws hr
+  | squoted items =>
+    exact ⟨ha, by simpa [LastFollow, StrAtom.isNaked] using closedFollow_of_nakedFollow hf⟩
+  | dquoted items =>
+    exact ⟨ha, by simpa [LastFollow, StrAtom.isNaked] using closedFollow_of_nakedFollow hf⟩
+  | braced items => exact absurd ha (by simp [IsNameAtom])
+
+/-- a text whose first character is no digit, no `{` and none of `r`, `R`, `l`, `L` does not start
+    like an amount -/
+theorem not_amount_of_head (X : Str) (c : Char) (tl : Str) (e : X = c :: tl) (h1 : isDigit c = false)
+    (h2 : ciMatches c 'r' = false ∧ ciMatches c 'l' = false) (h3 : c ≠ '{') :
+    remainderWordAt X = false ∧ NextNot isDigit X ∧ ∀ s', X = '{' :: s' → NextNot isDigit (s'.dropWhile isHsp) := by
+  subst e
+  refine ⟨?_, fun d hd => by cases hd; exact h1, fun s' e => by cases e; exact absurd rfl h3⟩
+  have := remainderWordAt_eq (c :: tl)
+  rw [remainderLen_none_of_head (s := c :: tl) (by intro d hd; cases hd; exact h2)] at this
+  simpa using this
 
 theorem plainRef_xok {r : RefLit} (h : IsPlainRef r) {rest : Str} (hf : WordFollow rest) :
     r.Ok rest ∧ r.NotStep rest := by
-  obtain ⟨txt, rfl, hn, hdig, hrem⟩ := h
-  have hp : (StringLit.mk (.naked txt) []).print = txt := by simp [StringLit.print, printString, printMore, StrAtom.print]
-  refine ⟨⟨word_ok ⟨txt, rfl, hn⟩ (nakedFollow_of_wordFollow hf), by rw [hp]; exact hrem rest, ?_, ?_⟩,
-    noParen_of_wordFollow hf⟩
-  · intro c hc
-    cases txt with
-    | nil => exact absurd rfl hn.1
-    | cons x xs => exact hdig c (by simpa [StringLit.print, printString, printMore, StrAtom.print] using hc)
-  · intro s' e
-    cases txt with
-    | nil => exact absurd rfl hn.1
-    | cons x xs =>
-      simp only [StringLit.print, printString, printMore, StrAtom.print, List.append_nil, List.cons_append,
-        List.cons.injEq] at e
-      obtain ⟨rfl, _⟩ := e
-      exact absurd (by decide : IsSpecialChar '{') (hn.2.1 _ (by simp)).1
+  obtain ⟨a, rfl, ha, hnk⟩ := h
+  refine ⟨⟨word_ok ⟨a, rfl, ha⟩ (nakedFollow_of_wordFollow hf), ?_⟩, noParen_of_wordFollow hf⟩
+  cases a with
+  | naked txt =>
+    obtain ⟨hdig, hrem⟩ := hnk txt rfl
+    have hn : IsNaked txt := ha
+    have hp : (StringLit.mk (.naked txt) []).print = txt := by
+      simp [StringLit.print, printString, printMore, StrAtom.print]
+    show remainderWordAt ((StringLit.mk (.naked txt) []).print ++ rest) = false ∧ _
+    rw [hp]
+    refine ⟨hrem rest, ?_, ?_⟩
+    · intro c hc
+      cases txt with
+      | nil => exact absurd rfl hn.1
+      | cons x xs => exact hdig c (by simpa using hc)
+    · intro s' e
+      cases txt with
+      | nil => exact absurd rfl hn.1
+      | cons x xs =>
+        simp only [List.cons_append, List.cons.injEq] at e
+        obtain ⟨rfl, _⟩ := e
+        exact absurd (by decide : IsSpecialChar '{') (hn.2.1 _ (by simp)).1
+  | squoted items =>
+    exact not_amount_of_head _ '\'' (items.flatMap QChar.print ++ '\'' :: rest)
+      (by simp [StringLit.print, printString, printMore, StrAtom.print, printQuoted])
+      (by decide) (by decide +kernel) (by decide)
+  | dquoted items =>
+    exact not_amount_of_head _ '"' (items.flatMap QChar.print ++ '"' :: rest)
+      (by simp [StringLit.print, printString, printMore, StrAtom.print, printQuoted])
+      (by decide) (by decide +kernel) (by decide)
+  | braced items => exact absurd ha (by simp [IsNameAtom])
 
 /-- a comma separated list of words with blanks around the commas is admissible wherever a word may end -/
 theorem commasOk_words {rest : Str} (hf : WordFollow rest) : ∀ (cs : List CommaLit),
@@ -1068,7 +1155,7 @@ theorem stmtOk_of_plain (sp : Spelling) (hsp : sp.WF) (p : Path) (s : XStmt) (re
     | leaf r =>
       rw [hs] at hx
       simp only [XExpr.Plain] at hx
-      obtain ⟨txt, rfl, _⟩ := hx
+      obtain ⟨a, rfl, _⟩ := hx
       intro hh; cases hh
     | step name args => trivial
     | paren e actions => trivial
@@ -1116,5 +1203,327 @@ theorem plain_two_spellings (sp1 sp2 : Spelling) (h1 : sp1.WF) (h2 : sp2.WF) (s 
       = eraseOffsets (parse (sp2.lead ++ printBlock sp2 0 (s :: ss))) :=
   two_spellings_same_ast_mod_offsets sp1 sp2 h1 h2 s ss (blockOk_of_plain sp1 h1 (s :: ss) 0 hplain heol1)
     (blockOk_of_plain sp2 h2 (s :: ss) 0 hplain heol2)
+
+/-! ## The ordered choice `step / reference / "(" …`, spelled out -/
+
+/-- **`step` fails cleanly on a reference** that is not followed by `blanks (`: it reads a string,
+    finds no `(`, and the position is restored for `reference` -/
+theorem step_fails_on_leaf (r : RefLit) (pre rest : Str) (z : Bool) (fuel : Nat) (hns : r.NotStep rest)
+    (hname : r.amount = none → r.name.Ok false rest) :
+    step (expr fuel) (pre ++ r.print ++ rest).toArray ⟨pre.length, z⟩ = none := by
+  have key : ∃ (s : StringLit) (srest : Str), s.Ok false srest ∧ s.print ++ srest = r.print ++ rest ∧ NoParen srest := by
+    cases ha : r.amount with
+    | none =>
+      have hp : r.print = r.name.print := by simp [RefLit.print, ha]
+      exact ⟨r.name, rest, hname ha, by rw [hp], by simpa [RefLit.NotStep, ha] using hns⟩
+    | some abl => simpa [RefLit.NotStep, ha] using hns
+  obtain ⟨s, srest, hs, e, bl, r', e', hbl, hr⟩ := key
+  have ht : ((pre ++ r.print ++ rest).toArray).toList.drop pre.length = s.print ++ srest := by rw [e]; simp
+  have h1 := stringAt_of_ok false s srest hs _ pre.length z ht
+  exact step_fail_of_string_some h1 (by rw [← e']; exact drop_add_of_drop ht) hbl hr
+
+/-- … so that `expr` takes the reference -/
+theorem expr_on_leaf (r : RefLit) (pre rest : Str) (z : Bool) (fuel : Nat) (hok : r.Ok rest) (hns : r.NotStep rest) :
+    expr (fuel + 1) (pre ++ r.print ++ rest).toArray ⟨pre.length, z⟩
+      = some (r.value pre.length, ⟨(pre ++ r.print).length, z⟩) := by
+  have := exprAt_leaf r rest hok hns (pre ++ r.print ++ rest).toArray pre.length z (fuel + 1) (by simp) (by omega)
+  simpa using this
+
+/-- **the action of a step does not swallow the `(`**: in front of an admissible step, `string` reads
+    exactly the action name -/
+theorem action_stops_before_paren (sp : Spelling) (p : Path) (name : StringLit) (args : XArgs) (pre rest : Str)
+    (z : Bool) (hok : XOk sp p rest (.step name args)) :
+    string false (pre ++ printX sp p (.step name args) ++ rest).toArray ⟨pre.length, z⟩
+      = some (name.value pre.length, ⟨(pre ++ name.print).length, z⟩) := by
+  simp only [XOk] at hok
+  have := stringAt_of_ok false name _ hok.1 (pre ++ printX sp p (.step name args) ++ rest).toArray pre.length z
+    (by simp [printX, List.append_assoc])
+  simpa using this
+
+/-- a reference whose whole text is one naked string (`2 eggs`, `100g flour`, `flour`) cannot be
+    mistaken for the beginning of a step where a word may end -/
+theorem notStep_of_naked_print {r : RefLit} {rest : Str} (hn : IsNaked r.print) (hf : WordFollow rest) :
+    r.NotStep rest := by
+  unfold RefLit.NotStep
+  cases r.amount with
+  | none => exact noParen_of_wordFollow hf
+  | some abl =>
+    exact ⟨⟨.naked r.print, []⟩, rest, word_ok ⟨.naked r.print, rfl, hn⟩ (nakedFollow_of_wordFollow hf),
+      by simp [StringLit.print, printString, printMore, StrAtom.print], noParen_of_wordFollow hf⟩
+
+/-! ## Examples -/
+
+/-! ### the model on nested texts (checked by the kernel) -/
+
+example : parse "f(a, g(b))\n".toList
+    = .ok [⟨.step [.sub 0 ['f']] [.ref [.sub 2 ['a']] none, .step [.sub 5 ['g']] [.ref [.sub 7 ['b']] none]],
+            none, false⟩] := by decide +kernel
+
+/-- white space and newlines inside the parentheses, a trailing comma, a blank before `(` -/
+example : parse "f (\n  a ,\n  g( b ,) ,\n)\n".toList
+    = .ok [⟨.step [.sub 0 ['f']] [.ref [.sub 6 ['a']] none, .step [.sub 12 ['g']] [.ref [.sub 15 ['b']] none]],
+            none, false⟩] := by decide +kernel
+
+/-- the shorthand in parentheses inside an argument list, and at the level of the statement -/
+example : parse "x := f((a, b, c), d), e\n".toList
+    = .ok [⟨.step [.sub 22 ['e']] [.step [.sub 5 ['f']]
+              [.step [.sub 14 ['c']] [.step [.sub 11 ['b']] [.ref [.sub 8 ['a']] none]], .ref [.sub 18 ['d']] none]],
+            some [[.sub 0 ['x']]], true⟩] := by decide +kernel
+
+/-- a reference followed by `(` is a step; a comma in an argument list separates arguments -/
+example : parse "2 eggs(a)\n".toList
+    = .ok [⟨.step [.sub 0 "2 eggs".toList] [.ref [.sub 7 ['a']] none], none, false⟩] := by decide +kernel
+
+/-- amounts at the leaves -/
+example : parse "mix(2 eggs,100g flour)\n".toList
+    = .ok [⟨.step [.sub 0 "mix".toList]
+              [.ref [.sub 6 "eggs".toList] (some (.qty 4 ⟨2, .int⟩ none [] [])),
+               .ref [.sub 16 "flour".toList] (some (.qty 11 ⟨100, .int⟩ (some [.sub 14 ['g']]) [] []))],
+            none, false⟩] := by decide +kernel
+
+/-- two outputs, several statements, blank lines -/
+example : parse "a, b = split(c)\n\n\nd = (a)\n".toList
+    = .ok [⟨.step [.sub 7 "split".toList] [.ref [.sub 13 ['c']] none], some [[.sub 0 ['a']], [.sub 3 ['b']]], false⟩,
+           ⟨.ref [.sub 23 ['a']] none, some [[.sub 18 ['d']]], false⟩] := by decide +kernel
+
+/-- the shorthand is not allowed directly in an argument list: `a, b` are two arguments -/
+example : parse "f(a, b)\n".toList
+    = .ok [⟨.step [.sub 0 ['f']] [.ref [.sub 2 ['a']] none, .ref [.sub 5 ['b']] none], none, false⟩] := by
+  decide +kernel
+
+/-- deep nesting: the fuel derived from the length of the text suffices -/
+example : parse "a(b(c(d(e(f(g(h(i))))))))\n".toList ≠ .syntaxError := by decide +kernel
+
+/-! ### two spellings of one abstract block -/
+
+def word (s : String) : StringLit := ⟨.naked s.toList, []⟩
+def ingredient (s : String) : XExpr := .leaf ⟨none, word s⟩
+
+/-- no optional white space anywhere -/
+def Spelling.tight : Spelling :=
+  { nameGap := fun _ => [], afterOpen := fun _ => [], beforeComma := fun _ _ => [], afterComma := fun _ _ => [],
+    trailing := fun _ => none, beforeClose := fun _ => [], actGap1 := fun _ _ => [], actGap2 := fun _ _ => [],
+    outGap1 := fun _ _ => [], outGap2 := fun _ _ => [], assignGap1 := fun _ => [], assignGap2 := fun _ => [],
+    eol := fun _ => .newline [] '\n' [], lead := [] }
+
+/-- white space wherever it is allowed: newlines and indentation inside parentheses, trailing
+    commas at the nodes of even depth, blank lines between the statements, a leading empty line -/
+def Spelling.airy : Spelling :=
+  { nameGap := fun _ => " ".toList, afterOpen := fun _ => "\n  ".toList, beforeComma := fun _ _ => " ".toList,
+    afterComma := fun _ _ => "\n  ".toList,
+    trailing := fun p => if p.length % 2 = 0 then some " ".toList else none,
+    beforeClose := fun _ => "\n".toList,
+    actGap1 := fun _ _ => " ".toList, actGap2 := fun _ _ => "  ".toList,
+    outGap1 := fun _ _ => " ".toList, outGap2 := fun _ _ => " ".toList,
+    assignGap1 := fun _ => " ".toList, assignGap2 := fun _ => "\t".toList,
+    eol := fun _ => .newline " ".toList '\n' "\n".toList, lead := "\n".toList }
+
+theorem Spelling.tight_wf : Spelling.tight.WF := by
+  constructor <;> intros <;> simp_all [Spelling.tight, IsBlanks, IsSpaces, EolLit.WF] <;> decide
+
+theorem Spelling.airy_wf : Spelling.airy.WF := by
+  constructor
+  case trailing =>
+    intro p ws h
+    simp only [Spelling.airy] at h
+    split at h
+    · cases h; unfold IsSpaces; decide
+    · cases h
+  all_goals (intros; simp [Spelling.airy, IsBlanks, IsSpaces, EolLit.WF] <;> decide)
+
+/-- `batter := mix(flour, (eggs, beaten), whisk(milk, sugar))` -/
+def exStmtA : XStmt :=
+  { target := some ⟨word "batter", [], true⟩
+    expr := .step (word "mix") (.cons (ingredient "flour") (.cons (.paren (ingredient "eggs") [word "beaten"])
+      (.one (.step (word "whisk") (.cons (ingredient "milk") (.one (ingredient "sugar")))))))
+    actions := [] }
+
+/-- `pancake, crumbs = batter, fry, flip` -/
+def exStmtB : XStmt :=
+  { target := some ⟨word "pancake", [word "crumbs"], false⟩
+    expr := ingredient "batter"
+    actions := [word "fry", word "flip"] }
+
+theorem exTight_print : Spelling.tight.lead ++ printBlock Spelling.tight 0 [exStmtA, exStmtB]
+    = "batter:=mix(flour,(eggs,beaten),whisk(milk,sugar))\npancake,crumbs=batter,fry,flip\n".toList := by
+  decide +kernel
+
+theorem exAiry_print : Spelling.airy.lead ++ printBlock Spelling.airy 0 [exStmtA, exStmtB]
+    = ("\nbatter :=\tmix (\n  flour ,\n  (\n  eggs ,  beaten\n) ,\n  whisk (\n  milk ,\n  sugar\n) ,\n) \n\n"
+        ++ "pancake , crumbs =\tbatter ,  fry ,  flip \n\n").toList := by
+  decide +kernel
+
+theorem isWord_word (s : String) (h : IsNaked s.toList) : IsWord (word s) := ⟨.naked s.toList, rfl, h⟩
+
+theorem isPlainRef_word (s : String) (h : IsNaked s.toList)
+    (hc : ∀ c, s.toList.head? = some c → isDigit c = false ∧ ciMatches c 'r' = false ∧ ciMatches c 'l' = false) :
+    IsPlainRef ⟨none, word s⟩ :=
+  ⟨.naked s.toList, rfl, h, fun txt e => by
+    cases e; exact ⟨fun c h' => (hc c h').1, noRemainderStart_of_head h.1 fun c h' => (hc c h').2⟩⟩
+
+theorem exStmtA_plain : exStmtA.Plain := by
+  have n : ∀ s : String, IsNaked s.toList → (∀ c, s.toList.head? = some c →
+      isDigit c = false ∧ ciMatches c 'r' = false ∧ ciMatches c 'l' = false) → (ingredient s).Plain :=
+    fun s h hc => by simp only [ingredient, XExpr.Plain]; exact isPlainRef_word s h hc
+  refine ⟨?_, by simp [exStmtA], ?_⟩
+  · simp only [exStmtA, XExpr.Plain, XArgs.Plain]
+    refine ⟨isWord_word _ (by unfold IsNaked; decide +kernel), n _ (by unfold IsNaked; decide +kernel) (by decide +kernel),
+      ⟨n _ (by unfold IsNaked; decide +kernel) (by decide +kernel), ?_⟩,
+      isWord_word _ (by unfold IsNaked; decide +kernel), n _ (by unfold IsNaked; decide +kernel) (by decide +kernel),
+      n _ (by unfold IsNaked; decide +kernel) (by decide +kernel)⟩
+    intro a ha
+    simp only [List.mem_singleton] at ha
+    subst ha
+    exact isWord_word _ (by unfold IsNaked; decide +kernel)
+  · intro g hg
+    cases hg
+    exact ⟨isWord_word _ (by unfold IsNaked; decide +kernel), by simp⟩
+
+theorem exStmtB_plain : exStmtB.Plain := by
+  refine ⟨?_, ?_, ?_⟩
+  · simp only [exStmtB, ingredient, XExpr.Plain]
+    exact isPlainRef_word _ (by unfold IsNaked; decide +kernel) (by decide +kernel)
+  · intro a ha
+    simp only [exStmtB, List.mem_cons, List.not_mem_nil, or_false] at ha
+    rcases ha with rfl | rfl <;> exact isWord_word _ (by unfold IsNaked; decide +kernel)
+  · intro g hg
+    cases hg
+    refine ⟨isWord_word _ (by unfold IsNaked; decide +kernel), ?_⟩
+    intro a ha
+    simp only [List.mem_singleton] at ha
+    subst ha
+    exact isWord_word _ (by unfold IsNaked; decide +kernel)
+
+theorem exBlock_plain : ∀ x ∈ [exStmtA, exStmtB], x.Plain := by
+  intro x hx
+  simp only [List.mem_cons, List.not_mem_nil, or_false] at hx
+  rcases hx with rfl | rfl
+  · exact exStmtA_plain
+  · exact exStmtB_plain
+
+/-- the theorem on the tight spelling -/
+example : parse "batter:=mix(flour,(eggs,beaten),whisk(milk,sugar))\npancake,crumbs=batter,fry,flip\n".toList
+    = .ok (astOfBlock Spelling.tight 0 0 [exStmtA, exStmtB]) := by
+  have := plain_recipe_roundtrip Spelling.tight Spelling.tight_wf exStmtA [exStmtB] exBlock_plain
+    ⟨⟨_, _, _, rfl⟩, trivial⟩
+  rw [exTight_print] at this
+  exact this
+
+/-- the offsets it predicts -/
+example : astOfBlock Spelling.tight 0 0 [exStmtA, exStmtB]
+    = [⟨.step [.sub 8 "mix".toList]
+          [.ref [.sub 12 "flour".toList] none,
+           .step [.sub 24 "beaten".toList] [.ref [.sub 19 "eggs".toList] none],
+           .step [.sub 32 "whisk".toList] [.ref [.sub 38 "milk".toList] none, .ref [.sub 43 "sugar".toList] none]],
+         some [[.sub 0 "batter".toList]], true⟩,
+       ⟨.step [.sub 77 "flip".toList] [.step [.sub 73 "fry".toList] [.ref [.sub 66 "batter".toList] none]],
+         some [[.sub 51 "pancake".toList], [.sub 59 "crumbs".toList]], false⟩] := by
+  decide +kernel
+
+/-- the theorem on the airy spelling: the same abstract block, other offsets -/
+example : parse ("\nbatter :=\tmix (\n  flour ,\n  (\n  eggs ,  beaten\n) ,\n  whisk (\n  milk ,\n  sugar\n) ,\n) \n\n"
+      ++ "pancake , crumbs =\tbatter ,  fry ,  flip \n\n").toList
+    = .ok (astOfBlock Spelling.airy 0 1 [exStmtA, exStmtB]) := by
+  have := plain_recipe_roundtrip Spelling.airy Spelling.airy_wf exStmtA [exStmtB] exBlock_plain
+    ⟨⟨_, _, _, rfl⟩, trivial⟩
+  rw [exAiry_print] at this
+  exact this
+
+/-- … and modulo offsets both texts give the same AST -/
+example : eraseOffsets (parse "batter:=mix(flour,(eggs,beaten),whisk(milk,sugar))\npancake,crumbs=batter,fry,flip\n".toList)
+    = eraseOffsets (parse ("\nbatter :=\tmix (\n  flour ,\n  (\n  eggs ,  beaten\n) ,\n  whisk (\n  milk ,\n  sugar\n) ,\n) \n\n"
+      ++ "pancake , crumbs =\tbatter ,  fry ,  flip \n\n").toList) := by
+  have := plain_two_spellings Spelling.tight Spelling.airy Spelling.tight_wf Spelling.airy_wf exStmtA [exStmtB]
+    exBlock_plain ⟨⟨_, _, _, rfl⟩, trivial⟩ ⟨⟨_, _, _, rfl⟩, trivial⟩
+  rw [exTight_print, exAiry_print] at this
+  exact this
+
+/-- the same, checked directly on the model -/
+example : eraseOffsets (parse "batter:=mix(flour,(eggs,beaten),whisk(milk,sugar))\npancake,crumbs=batter,fry,flip\n".toList)
+    = .ok [bareStmt exStmtA, bareStmt exStmtB] := by decide +kernel
+
+/-! ### names that need quotes -/
+
+/-- `x = f('rest', "a, (b)")`: a remainder word and a name with a comma and parentheses -/
+def exStmtQ : XStmt :=
+  { target := some ⟨word "x", [], false⟩
+    expr := .step (word "f") (.cons (.leaf ⟨none, ⟨.squoted ("rest".toList.map .raw), []⟩⟩)
+      (.one (.leaf ⟨none, ⟨.dquoted ("a, (b)".toList.map .raw), []⟩⟩)))
+    actions := [] }
+
+theorem exStmtQ_plain : exStmtQ.Plain := by
+  refine ⟨?_, by simp [exStmtQ], ?_⟩
+  · simp only [exStmtQ, XExpr.Plain, XArgs.Plain]
+    refine ⟨isWord_word _ (by unfold IsNaked; decide +kernel), ⟨_, rfl, ?_, fun txt e => by cases e⟩,
+      ⟨_, rfl, ?_, fun txt e => by cases e⟩⟩
+    · simp [IsNameAtom, QChar.Ok, isNewline]
+    · simp [IsNameAtom, QChar.Ok, isNewline]
+  · intro g hg
+    cases hg
+    exact ⟨isWord_word _ (by unfold IsNaked; decide +kernel), by simp⟩
+
+example : parse "x=f('rest',\"a, (b)\")\n".toList
+    = .ok [⟨.step [.sub 2 ['f']] [.ref [.sub 4 "rest".toList] none, .ref [.sub 11 "a, (b)".toList] none],
+            some [[.sub 0 ['x']]], false⟩] := by
+  have := plain_recipe_roundtrip Spelling.tight Spelling.tight_wf exStmtQ []
+    (by intro x hx; simp only [List.mem_singleton] at hx; subst hx; exact exStmtQ_plain) trivial
+  have e1 : Spelling.tight.lead ++ printBlock Spelling.tight 0 [exStmtQ] = "x=f('rest',\"a, (b)\")\n".toList := by
+    decide +kernel
+  have e2 : astOfBlock Spelling.tight 0 Spelling.tight.lead.length [exStmtQ]
+      = [⟨.step [.sub 2 ['f']] [.ref [.sub 4 "rest".toList] none, .ref [.sub 11 "a, (b)".toList] none],
+            some [[.sub 0 ['x']]], false⟩] := by decide +kernel
+  rw [e1, e2] at this
+  exact this
+
+/-- without the quotes `rest` is a remainder word and wants an ingredient after it -/
+example : parse "x=f(rest,a)\n".toList = .syntaxError := by decide +kernel
+
+/-! ### amounts at the leaves: the general theorem -/
+
+/-- `mix(2 eggs, 100g flour)` -/
+def exMix : XExpr :=
+  .step (word "mix")
+    (.cons (.leaf ⟨some (.implicit (.int ['2']) none, [' ']), word "eggs"⟩)
+      (.one (.leaf ⟨some (.implicit (.int "100".toList) (some ([], ⟨["g"], [[false]], []⟩, .none)), [' ']),
+        word "flour"⟩)))
+
+theorem exMix_print : printX Spelling.tight [] exMix = "mix(2 eggs,100g flour)".toList := by decide +kernel
+
+theorem exMix_ok : XOk Spelling.tight [] ['\n'] exMix := by
+  simp only [XOk, ArgsOk, exMix]
+  refine ⟨?_, ⟨?_, ?_⟩, ?_, ?_⟩
+  · exact nakedLit_ok' _ (by unfold IsNaked; decide +kernel) _ '(' _ rfl (Or.inl (by decide))
+  · exact bareNumberRef_ok _ _ _ _ " eggs,100g flour)\n".toList "eggs,100g flour)\n".toList
+      (by decide +kernel) (by decide +kernel) ⟨by decide, by decide⟩ (by decide)
+      (by intro c hc; cases hc; exact ⟨by decide, by decide, by decide, by decide⟩)
+      (by decide +kernel) (by decide +kernel) (by unfold IsBlanks; decide)
+      (nakedLit_ok' _ (by unfold IsNaked; decide +kernel) _ ',' _ rfl (Or.inl (by decide)))
+  · exact notStep_of_naked_print (by unfold IsNaked; decide +kernel)
+      (wordFollow_spaces (ws := []) (by unfold IsSpaces; decide) _ (Or.inl rfl))
+  · exact unitRef_ok _ _ _ _ _ _ " flour)\n".toList "g flour)\n".toList "g flour)\n".toList
+      (by decide +kernel) (by decide +kernel) (by decide +kernel)
+      ⟨by decide, by decide⟩ (by decide) (by intro c hc; cases hc; exact ⟨by decide, by decide⟩)
+      (by simp [IsBlanks]) ⟨by decide, by simp [UnitSpellingOk]⟩ (by decide +kernel)
+      (nextNot_of_head _ _ ' ' "flour)\n".toList (by decide +kernel) (by decide +kernel))
+      (by unfold IsBlanks; decide)
+      (nakedLit_ok' _ (by unfold IsNaked; decide +kernel) _ ')' _ rfl (Or.inl (by decide)))
+  · exact notStep_of_naked_print (by unfold IsNaked; decide +kernel)
+      (wordFollow_spaces (ws := []) (by unfold IsSpaces; decide) _ (Or.inr (Or.inl rfl)))
+
+/-- `expr_roundtrip` on it, after any prefix -/
+example (pre : Str) (z : Bool) (fuel : Nat) (h : 2 ≤ fuel) :
+    expr fuel (pre ++ "mix(2 eggs,100g flour)".toList ++ ['\n']).toArray ⟨pre.length, z⟩
+      = some (.step [.sub pre.length "mix".toList]
+          [.ref [.sub (pre.length + 6) "eggs".toList] (some (.qty (pre.length + 4) ⟨((2 : Nat) : Rat), .int⟩ none [] [])),
+           .ref [.sub (pre.length + 16) "flour".toList]
+             (some (.qty (pre.length + 11) ⟨((100 : Nat) : Rat), .int⟩ (some [.sub (pre.length + 14) ['g']]) [] []))],
+        ⟨(pre ++ "mix(2 eggs,100g flour)".toList).length, z⟩) := by
+  have := expr_roundtrip Spelling.tight Spelling.tight_wf exMix pre ['\n'] z fuel h exMix_ok
+  rw [exMix_print] at this
+  rw [this]
+  simp [exMix, astOf, astArgs, RefLit.value, AmountLit.value, AmountLit.print, NumLit.print, NumLit.value,
+    StringLit.print, StringLit.value, printString, printMore, stringValue, moreValue, StrAtom.print,
+    StrAtom.value, digitsValue, word, Spelling.tight, printX, RefLit.print, UnitLit.print, printUnit, caseWord,
+    PrepLit.print, Nat.add_assoc]
 
 end RG.C06
